@@ -126,4 +126,7 @@ pub fn search(r: &mut Report, tier: &str, _seed: u64) {
     } } } }
     let v: VClock<u8> = Dot::new(1u8, 2).into();
     r.case("from_dot", arr(&v) == Some([0, 2, 0]), &|| "Dot(1,2)".into(), &|| format!("{:?}", v));
+    // a zero-counter dot carries no information: the clock built from it is the empty clock (no stored zero)
+    let z: VClock<u8> = Dot::new(1u8, 0).into();
+    r.case("from_dot_zero", z.is_empty() && z == VClock::new() && z.dots.is_empty(), &|| "VClock::from(Dot(1,0))".into(), &|| format!("{:?}", z));
 }
